@@ -286,4 +286,30 @@ def dec2ddm(dec):""", note='sign flag dropped in dec2dms: wrong for -1 < x < 0')
     dict(id='c03-semimin', props=['C03'], file='geodepy/convert.py',
          old="    z = ((ellipsoid.semimin**2 / ellipsoid.semimaj**2) * nu + ellht) * sin(lat)",
          new="    z = ((grs80.semimin**2 / grs80.semimaj**2) * nu + ellht) * sin(lat)", note='z from the default ellipsoid axes ratio'),
+    # ---- C09: purity ---------------------------------------------------------------------------------------------------
+    dict(id='pure-add-inplace', props=['C09', 'C07'], file='geodepy/constants.py',
+         old="""            tf_sd = self.tf_sd
+            if type(self.tf_sd) == TransformationSD:
+                tf_sd = TransformationSD(""",
+         new="""            tf_sd = self.tf_sd
+            if type(self.tf_sd) == TransformationSD:
+                self.tf_sd.sd_rx = (self.tf_sd.sd_rx**2 + (self.tf_sd.sd_d_rx * timediff)**2) ** 0.5
+                tf_sd = TransformationSD(""", note='__add__ again writes one propagated sigma into the shared uncertainty object'),
+    dict(id='pure-sort-inplace', props=['C09'], file='geodepy/survey.py', old="    vert_list = sorted(vert_list, reverse=True)",
+         new="    vert_list.sort(reverse=True)", note='precise_inst_ht sorts the caller list in place'),
+    dict(id='pure-alpha-memo', props=['C09', 'C01'], edits=[
+        dict(file='geodepy/convert.py', old="def alpha_coeff(ellipsoid):", new="_ALPHA_CACHE = {}\n\n\ndef alpha_coeff(ellipsoid):\n    if 'a' in _ALPHA_CACHE:\n        return _ALPHA_CACHE['a']\n    _ALPHA_CACHE['a'] = _alpha_coeff(ellipsoid)\n    return _ALPHA_CACHE['a']\n\n\ndef _alpha_coeff(ellipsoid):")],
+         note='alpha coefficients memoised on a module global without the ellipsoid in the key'),
+    dict(id='pure-vcv-inplace', props=['C09'], file='geodepy/statistics.py',
+         old="    rot_matrix = rotation_matrix(lat, lon)\n    vcv_local = rot_matrix.transpose() @ vcv_cart @ rot_matrix",
+         new="    rot_matrix = rotation_matrix(lat, lon)\n    vcv_cart *= 1.0000001\n    vcv_local = rot_matrix.transpose() @ vcv_cart @ rot_matrix",
+         note='vcv_cart2local scales the caller array in place'),
+    dict(id='pure-neg-shares-list', props=['C09'], file='geodepy/constants.py',
+         old="                              tf_sd=self.tf_sd\n                              )",
+         new="                              tf_sd=setattr(self, 'tx', self.tx) or self.tf_sd\n                              )",
+         expect='silent', note='__neg__ rewrites an attribute of the shipped constant with the identical value: a write but no change; the check must stay silent'),
+    dict(id='pure-ellipsoid-cache', props=['C09'], file='geodepy/geodesy.py',
+         old="    return (ellipsoid.semimaj /\n            sqrt(1 - ellipsoid.ecc1sq * (sin(radians(lat)) ** 2)))",
+         new="    ellipsoid.last_nu_lat = lat\n    return (ellipsoid.semimaj /\n            sqrt(1 - ellipsoid.ecc1sq * (sin(radians(lat)) ** 2)))",
+         note='nu() stores a scratch attribute on the shipped ellipsoid'),
 ]
